@@ -265,6 +265,21 @@ impl World {
                 if !log.queue_exists(name) {
                     panic!("listed queue does not exist");
                 }
+                // the bounded forms of `range` must agree with the unbounded one (first / middle / last position)
+                if !recs.is_empty() {
+                    for p in [recs[0].pos, recs[recs.len() / 2].pos, recs[recs.len() - 1].pos] {
+                        let from: Vec<u64> = log.range(name, p..).unwrap().map(|r| r.position).collect();
+                        let upto: Vec<u64> = log.range(name, ..=p).unwrap().map(|r| r.position).collect();
+                        let after: Vec<u64> = log.range(name, (std::ops::Bound::Excluded(p), std::ops::Bound::Unbounded)).unwrap().map(|r| r.position).collect();
+                        let all: Vec<u64> = recs.iter().map(|r| r.pos).collect();
+                        let want_from: Vec<u64> = all.iter().copied().filter(|x| *x >= p).collect();
+                        let want_upto: Vec<u64> = all.iter().copied().filter(|x| *x <= p).collect();
+                        let want_after: Vec<u64> = all.iter().copied().filter(|x| *x > p).collect();
+                        if from != want_from || upto != want_upto || after != want_after {
+                            panic!("range({p}..) / range(..={p}) / range(>{p}) disagree with range(..): {} / {} / {} records instead of {} / {} / {}", from.len(), upto.len(), after.len(), want_from.len(), want_upto.len(), want_after.len());
+                        }
+                    }
+                }
                 obs.queues.insert(name.clone(), QObs { recs, last_position, last_record, summary_end });
             }
             obs
